@@ -39,6 +39,8 @@ def rules(model, rep):
     fn = model.own_method("System", "batt_life")
     if fn is None:
         raise AnalysisError("System.batt_life not found")
+    from ..core import inline_nested_defs
+    fn = inline_nested_defs(fn)
     loop = sysrules.find_loop(fn, lambda l: isinstance(l, ast.While), "depletion loop")
     where = "%s:%d" % (rel, loop.lineno)
     construct = "system.System.batt_life"
